@@ -292,25 +292,17 @@ def run(ctx, rep):
         rep.check("C02.d", "executor/Undecided", returns_err_only(PR, tgt), where=where(PR, sw), what="an undecided pack aborts prune with an error")
     # check_existing_packs: which decisions release a pack's blobs from the used set
     CE = prog.find1(r"^rustic_core::commands::prune::PrunePlan::check_existing_packs$")
-    sws = switch_on_todo(CE)
-    rep.require("C02.d", "check_existing/switch", len(sws) == 1, where=CE.loc(), what="check_existing_packs dispatches on pack.to_do")
-    if len(sws) == 1:
-        def releases(variant):
-            blocks, tgt = arm_blocks(prog, CE, sws[0], variant)
-            for bb in blocks:
-                t = CE.term(bb)
-                if t["k"] == "call" and "callee" in t and re.search(r"BTreeMap<.*>::remove$|BTreeMap::<K, V, A>::remove$|::remove$", callee(t)) and "Map" in callee(t):
-                    pp = flow.place_path(CE, op_place(t["args"][0])) if op_place(t["args"][0]) else None
-                    if pp and "used_ids" in pp[1]:
-                        return True
-            return False
+    # decided per PackToDo variant by forcing every switch on pack.to_do (one match, nested matches! tests, if-chains alike)
+    table_ = used_bookkeeping_table(prog, CE)
+    rep.require("C02.d", "check_existing/switch", table_ is not None, where=CE.loc(), what="check_existing_packs strikes blobs off used_ids depending on pack.to_do")
+    if table_ is not None:
         for var in prog.variants("commands::prune::PackToDo"):
             if var == "Undecided":
                 continue
-            rel = releases(var)
+            rel = table_[var]
             want = var in ("Keep", "Recover")
-            rep.check("C02.d", f"check_existing/{var}", rel == want, where=where(CE, sws[0]),
-                      what=(f"{var}: the pack's blobs are {'released from' if rel else 'kept in'} the used set (" + ("they stay available in this pack)" if want else "only blobs still in the used set are repacked / nothing may rely on a pack that is going away)")) if rel == want else
+            rep.check("C02.d", f"check_existing/{var}", rel == want, where=CE.loc(),
+                      what=(f"{var}: the pack's blobs are {'released from' if rel else 'kept in'} the used set (" + ("they stay available in this pack)" if want else "only blobs still in the used set are repacked / nothing may release them)")) if rel == want else
                            (f"{var}: the pack's blobs are REMOVED from the used set although the pack does not stay in the index: a used blob whose only live copy is repacked later is dropped" if rel else
                             f"{var}: the pack's blobs stay in the used set although the pack is kept: repacking duplicates them"))
     # planner step order
@@ -376,21 +368,15 @@ def index_rewrite_rule(ctx, rep, R):
                        f"the decisions that force an index file to be rewritten differ from the executor's needs (predicate vs required, as (no-instant, instant)): {diff}")
 
 
-def used_bookkeeping_rule(ctx, rep, R):
-    """PrunePlan::check_existing_packs strikes a blob off `used_ids` (the blobs that still need a home; whatever is left is
-    copied by the repack step or reported) exactly for packs that stay available unmarked: to_do = Keep or Recover.
-    Evaluated per PackToDo variant by forcing every switch on `pack.to_do`: the `used_ids.remove` call is reachable for
-    Keep and Recover only. Striking them off for packs that stay marked (KeepMarked*) or go away (Delete, MarkDelete, Repack)
-    drops the last usable copy of a blob."""
+def used_bookkeeping_table(prog, F):
+    """{PackToDo variant: is a `used_ids.remove` call reachable when every switch on pack.to_do takes that variant's edge};
+    None if check_existing_packs has no such call in its own body"""
     import pathsens
-    prog = ctx.prog
-    F = prog.find1(r"^rustic_core::commands::prune::PrunePlan::check_existing_packs$")
     fam = [F] + prog.closures_of(F)
     rms = [(f, bb) for f in fam for bb, t in f.calls() if "callee" in t and re.search(r"(BTreeMap|BTreeSet|HashMap|HashSet)<.*>::remove$|::remove$", callee(t)) and t["args"] and op_place(t["args"][0])
            and "used_ids" in flow.backward_slice(f, op_place(t["args"][0]))["fields"]]
-    rep.require(R, "used-ids/remove-site", len(rms) >= 1 and all(f is F for f, _ in rms), where=F.loc(), what="check_existing_packs strikes blobs off used_ids in its own body")
     if not rms or not all(f is F for f, _ in rms):
-        return
+        return None
     adt = prog.adt("commands::prune::PackToDo")
     table = {}
     for v in adt["variants"]:
@@ -407,8 +393,24 @@ def used_bookkeeping_rule(ctx, rep, R):
             return tg[0] if tg else t["otherwise"]
         reach = pathsens.reachable_under(F, fz)
         table[v["name"]] = any(bb in reach for _, bb in rms)
+    return table
+
+
+def used_bookkeeping_rule(ctx, rep, R):
+    """PrunePlan::check_existing_packs strikes a blob off `used_ids` (the blobs that still need a home; whatever is left is
+    copied by the repack step or reported) exactly for packs that stay available unmarked: to_do = Keep or Recover.
+    Evaluated per PackToDo variant by forcing every switch on `pack.to_do`: the `used_ids.remove` call is reachable for
+    Keep and Recover only. Striking them off for packs that stay marked (KeepMarked*) or go away (Delete, MarkDelete, Repack)
+    drops the last usable copy of a blob."""
+    prog = ctx.prog
+    F = prog.find1(r"^rustic_core::commands::prune::PrunePlan::check_existing_packs$")
+    table = used_bookkeeping_table(prog, F)
+    rep.require(R, "used-ids/remove-site", table is not None, where=F.loc(), what="check_existing_packs strikes blobs off used_ids in its own body")
+    if table is None:
+        return
+    adt = prog.adt("commands::prune::PackToDo")
     want = {v["name"]: v["name"] in ("Keep", "Recover") for v in adt["variants"]}
     ok = table == want
-    rep.check(R, "used-ids/struck-off-only-for-kept-packs", ok, where=where(F, rms[0][1]),
+    rep.check(R, "used-ids/struck-off-only-for-kept-packs", ok, where=F.loc(),
               what="blobs are struck off the still-needed set exactly for packs that stay available (Keep, Recover)" if ok else
                    f"blobs are struck off the still-needed set for {sorted(k for k, v in table.items() if v)} (must be exactly Keep and Recover): a used blob whose other copy sits in such a pack is not repacked and ends up in no index")
